@@ -29,11 +29,14 @@ Ooxml == {"docx", "xlsx", "pptx"}
 \* an EPUB for the DRM table: which resources are listed in encryption.xml and how
 Algos == {"idpf-obf", "adobe-obf", "aes128", "aes256", "unknown"}
 EpubSpace == [ rights : BOOLEAN,
-               enc    : SUBSET {"ch1", "ch2", "font", "font2", "font3", "img"},   \* ch1 = spine item *.xhtml, ch2 = spine item with an unusual suffix
+               enc    : SUBSET {"ch1", "ch2", "nav", "font", "font2", "font3", "img"},   \* ch1 = spine item *.xhtml, ch2 = spine item with an
+                                                                                        \* unusual suffix, nav = the navigation document (a content
+                                                                                        \* document that is not in the spine)
+               rev    : BOOLEAN,                                                        \* entries of encryption.xml in reverse order
                algo   : Algos,
                uri    : {"plain", "upper", "dotslash"},
                rfirst : BOOLEAN ]                       \* archive order of rights.xml relative to encryption.xml
-NoEpub == [rights |-> FALSE, enc |-> {}, algo |-> "aes128", uri |-> "plain", rfirst |-> TRUE]
+NoEpub == [rights |-> FALSE, enc |-> {}, algo |-> "aes128", uri |-> "plain", rfirst |-> TRUE, rev |-> FALSE]
 
 Init == \/ /\ mode = "admit" /\ kind \in Kinds /\ ext \in Exts /\ ecase \in {"lower", "upper", "mixed"}
            \* "mimelast": the "mimetype" member of an ODF / EPUB package written last instead of first (what zip tools that
@@ -50,7 +53,7 @@ Init == \/ /\ mode = "admit" /\ kind \in Kinds /\ ext \in Exts /\ ecase \in {"lo
         \/ /\ mode = "rewrite" /\ kind \in Kinds /\ then \in Kinds /\ then # kind /\ ext \in Kinds \cup {"htm"}
            /\ ecase = "lower" /\ order = "canonical" /\ decoy = "none" /\ epub = NoEpub /\ tgt = "rel"
         \/ /\ mode = "drm" /\ kind = "epub" /\ ext = "epub" /\ ecase = "lower" /\ order = "canonical" /\ decoy = "none" /\ tgt = "rel" /\ then = "none"
-           /\ epub \in {e \in EpubSpace : (e.rights /\ e.enc # {}) \/ e.rfirst}      \* the order only exists when both files do
+           /\ epub \in {e \in EpubSpace : ((e.rights /\ e.enc # {}) \/ e.rfirst) /\ (e.rev => Cardinality(e.enc) >= 2)}      \* the order only exists when both files do
 Next == FALSE /\ UNCHANGED vars
 Spec == Init /\ [][Next]_vars
 
@@ -58,7 +61,7 @@ Spec == Init /\ [][Next]_vars
 RealDecoy == decoy # "none" /\ ~((decoy = "word" /\ kind = "docx") \/ (decoy = "xl" /\ kind = "xlsx") \/ (decoy = "ppt" /\ kind = "pptx"))
 
 Obf(a) == a \in {"idpf-obf", "adobe-obf"}
-ContentDocs == {"ch1", "ch2"}
+ContentDocs == {"ch1", "ch2", "nav"}
 DrmVerdict(e) ==
     IF e.rights THEN "refused"
     ELSE IF e.enc = {} THEN "opens"
